@@ -255,7 +255,7 @@ def run(tier, seed):
                 "hash strings (reference encoder) and a thinned set on one real hash. non-trivial = evaluations whose outcome was not an immediate ValueError/TypeError" % (
                     len(plist), 2 if tier == "quick" else 3, len(extra_pairs())),
         "outcomes": dict(summary), "exhaustive": True,
-        "samples": _samples(),
+        "samples": core.safe_samples(_samples),
     }
     rep.assumptions = ["'malformed' = does not denote the original (method, version, parameters, salt, digest) under base64 decoding; a damaged string that still denotes exactly those may verify",
                        "scrypt itself is trusted; collisions of sha256/scrypt are out of scope"]
